@@ -2449,6 +2449,11 @@ impl StreamIdSet {
     }
 }
 
+#[cfg(scylla_verif)]
+#[path = "connection_verif.rs"]
+#[allow(missing_docs, unreachable_pub, unnameable_types)]
+pub(crate) mod verif;
+
 /// This type can only hold a valid keyspace name
 #[derive(Debug, Clone, PartialEq, Eq, PartialOrd, Ord)]
 pub(crate) struct VerifiedKeyspaceName {
